@@ -365,7 +365,7 @@ func BuildLimit(query *Query, limit *sqlparser.Limit) error {
 		if err != nil {
 			return err
 		}
-		offsetNumeric, err := strconv.Atoi(offsetLiteral)
+		offsetNumeric, err := rowCount(offsetLiteral)
 		if err != nil {
 			return err
 		}
@@ -375,12 +375,25 @@ func BuildLimit(query *Query, limit *sqlparser.Limit) error {
 	if err != nil {
 		return err
 	}
-	limitNumeric, err := strconv.Atoi(limitLiteral)
+	limitNumeric, err := rowCount(limitLiteral)
 	if err != nil {
 		return err
 	}
 	query.limitDefinition = limitNumeric
 	return nil
+}
+
+// rowCount reads the number of a LIMIT / OFFSET clause; a number beyond what an int holds
+// (LIMIT 18446744073709551615 is the idiom for "all the rest") stands for the largest int
+func rowCount(literal string) (int, error) {
+	number, err := strconv.ParseUint(literal, 10, 64)
+	if err != nil {
+		return 0, err
+	}
+	if number > math.MaxInt {
+		return math.MaxInt, nil
+	}
+	return int(number), nil
 }
 
 func BuildGroup(query *Query, group *sqlparser.GroupBy) error {
